@@ -285,8 +285,26 @@ def findBestInternalAddress (d : Device) : M (Bool × Nat) := do
 
 /-! ### transform -/
 
+/-- What `format_ident!` / `Ident::new` accept: non-empty, not starting with a digit, made of
+    letters, digits and underscores (non-ASCII letters pass). -/
+def validIdent (s : String) : Bool :=
+  match s.toList with
+  | [] => false
+  | c :: cs => !c.isDigit && (c :: cs).all (fun x => x.isAlphanum || x == '_' || x.toNat > 127)
+
+/-- every name the lowering turns into an identifier (names are already normalised) -/
+def identNames (n : Names) (d : Device) : List String :=
+  (allObjects d.objects).flatMap fun o =>
+    [o.name, n.method o.name] ++
+    (o.fieldSets.flatMap fun fs => fs.flatMap fun f =>
+      f.name :: (match f.conv with
+        | some (.enum e _) => e.name :: e.variants.map (·.name)
+        | _ => []))
+
 def lower (n : Names) (deviceName : String) (d : Device) : M Lir := do
   if deviceName ≠ n.devicePascal then throw (lowerErr "device_name_not_pascal" [n.devicePascal])
+  -- `format_ident!` panics on a name that is not an identifier (manifest keys are free strings)
+  if (identNames n d).any (fun s => !validIdent s) then throw (.panic "invalid_ident")
   let mirEnums := collectEnums d.objects
   let lirEnums := mirEnums.map fun (e, b, w) => transformEnum e b w
   let fieldSets ← transformFieldSets d (mirEnums.map (·.1))
